@@ -4,6 +4,7 @@
 package vdet
 
 import (
+	"math"
 	"fmt"
 	"iter"
 	"sort"
@@ -57,6 +58,16 @@ func keyBits(key any) uint64 {
 		return uint64(k)
 	case int32:
 		return uint64(k)
+	case float64:
+		if k == 0 {
+			return 0 // +0.0 == -0.0: equal keys hash equally
+		}
+		return math.Float64bits(k)
+	case float32:
+		if k == 0 {
+			return 0
+		}
+		return uint64(math.Float32bits(k))
 	case string:
 		var h uint64 = 14695981039346656037
 		for i := 0; i < len(k); i++ {
